@@ -14,6 +14,7 @@ values, JSON round trip, sizes/positions after edits.
 from __future__ import annotations
 
 import copy
+import os
 import json
 import signal
 import struct
@@ -583,7 +584,7 @@ def ch_boxcodec(ctx):
         "distinct non-mdat fixture box. The Layer-C oracle (parse->encode == input, eager == lazy field values, "
         "JSON round trip) runs on the same inputs and on the whole fixture files."))
     rng = ctx.rng("boxcodec")
-    n = ctx.scale(500, 11000)
+    n = ctx.scale(500, 9000)
     try:
         # (0) the deterministic grid: the same cases for every seed
         grid = G.grid_cases() + G.long_payload_cases(
@@ -947,6 +948,19 @@ X_EDITS = {
 }
 
 
+# boxes Z that no box lists as a dependency but whose LENGTH the offsets of trun / saio refer to
+Z_EDITS = {
+    "tfdt": [("set", "version", "flip01")],                      # 4 bytes more / less, no update_size()
+    "emsg": [("set", "value", "grow")],                          # a string grows in front of the moof
+    "traf": [("insert-scratch", 1, None), ("insert-parsed", 1, None), ("insert-scratch", 99, None)],
+    "moof": [("insert-scratch", 1, None)],
+    "mfhd": [("set", "sequence_number", "+1")],                   # same length: control
+}
+
+
+INSIDE_TRAF = {"tfhd", "tfdt", "trun", "saiz", "saio", "senc", "mfhd"}
+
+
 def listener_pairs():
     """(dependent box Y, box X it waits for) – read from the registered classes: DEPENDS_UPON are the
     `change.<X>` listeners a lazily loaded Y registers, REQUIRED_PEERS defer its parsing"""
@@ -996,6 +1010,14 @@ def apply_x_edit(wrapper, xtype, edit):
     x = _find_type(wrapper, xtype)
     if x is None:
         return False
+    if op in ("insert-scratch", "insert-parsed"):
+        if op == "insert-parsed":
+            child = I.load(struct.pack(">I4s", 12, b"free") + b"pad!", False, "rw").children[0]
+        else:           # built from scratch: size 0 until encoded, update_size() is not called
+            child = m.ContentProtectionSpecificBox(version=0, flags=0, system_id=bytes(range(16)), key_ids=[],
+                                                   data=b"0x1234")
+        x.insert_child(field, child)
+        return True
     if op == "append-free":
         x.append_child(I.load(struct.pack(">I4s", 12, b"free") + b"pad!", False, "rw").children[0])
         return True
@@ -1011,7 +1033,13 @@ def apply_x_edit(wrapper, xtype, edit):
         return False
     if v is None:
         return False
-    if how == "swap-iv":
+    if how == "flip01":
+        if v not in (0, 1) or getattr(x, "base_media_decode_time", 0) >= 2**32:
+            return False
+        v = 1 - v
+    elif how == "grow":
+        v = v + "-longer"
+    elif how == "swap-iv":
         v = 16 if v == 8 else 8
     elif how.startswith("+"):
         v = v + int(how[1:])
@@ -1061,12 +1089,18 @@ def lazyedit_case(data: bytes, iv, xtype, edit, opened=True):
                 I.run_calls(w, HIST.calls)
                 if not apply_x_edit(w, xtype, edit):
                     return None
-                fields = _masked_fields(w)
+                # encode first, on a tree in which nothing but the edit has been touched (reading the
+                # fields parses every box); the field values come from a second, identical run
                 try:
                     out = I.encode(w).hex()
                 except Exception as e:
                     out = f"exception {type(e).__name__}"
-                return fields, out
+                w2 = I.load(data, lazy, "rw", iv)
+                if opened:
+                    _open_containers(w2)
+                I.run_calls(w2, HIST.calls)
+                apply_x_edit(w2, xtype, edit)
+                return _masked_fields(w2), out
             seen[tag] = guarded(run)
         except Exception as e:
             seen[tag] = ("exception " + type(e).__name__ + ": " + str(e)[:80], "")
@@ -1100,6 +1134,52 @@ def lazyedit_inputs(ctx):
     return out
 
 
+def first_touch(ch, name, data):
+    """every box of the first fragment read first from a fresh lazy tree; the library has to find what the
+    box needs (tenc, saiz, tfhd, moof) by itself – no iv_size option when the file carries a tenc"""
+    nodes = W.walk(data)
+    iv = None if W.tenc_iv_size(data, nodes) else 8
+    moof_i = next((i for i, n in enumerate(nodes) if n.type == b"moof"), None)
+    if moof_i is None:
+        return
+    paths = []
+
+    def rec(n, path):
+        paths.append(path)
+        if n.type.decode("latin-1") in G.CONTAINERS:
+            for k, c in enumerate(n.children or []):
+                rec(c, path + (k,))
+    rec(nodes[moof_i], (moof_i,))
+    try:
+        eager = I.load(data, False, "r", iv)
+    except Exception as e:
+        ch.errors.append(f"{name}: eager load failed: {e}")
+        return
+    for path in paths:
+        if len(ch.oracle_failures) >= 20:
+            return
+        ch.evaluations += 1
+        ch.count("first touch")
+        ch.nontrivial.add((name, "first-touch", path))
+        try:
+            want = json.dumps(I.node_at(eager.children[path[0]], path[1:]).toJSON(pure=True), sort_keys=True, default=str)
+        except Exception as e:
+            ch.errors.append(f"{name}: eager read failed at {path}: {e}")
+            continue
+        try:
+            def run():
+                w = I.load(data, True, "r", iv)
+                return json.dumps(I.node_at(w.children[path[0]], path[1:]).toJSON(pure=True), sort_keys=True, default=str)
+            got = guarded(run)
+        except Exception as e:
+            got = f"exception {type(e).__name__}: {str(e)[:80]}"
+        if got != want:
+            ch.oracle_failures.append({"kind": "lazy-edit", "fixture_prefix": name, "data": "", "iv": iv, "x": "first-touch",
+                                       "edit": ["first-touch", list(path), None], "opened": True, "regions": [],
+                                       "failures": [{"clause": "lazy-fields", "what": f"box at {list(path)} read first from a lazy "
+                                                     f"tree differs from the eager tree", "lazy": got[:120], "eager": want[:120]}]})
+
+
 def ch_lazyedit(ctx):
     ch = Channel("lazyedit", rule=(
         "edit histories in lazy mode: for every (dependent box Y, box X) pair the library registers (DEPENDS_UPON = the "
@@ -1107,7 +1187,11 @@ def ch_lazyedit(ctx):
         "insert a box in front, append a child) is applied to an eager and to a lazy tree in mode rw while Y is still "
         "unparsed; all field values (pure JSON of the whole tree, incl. the values Y derives from X) and the encoded "
         "bytes must be alike. Fixed grid: every pair x every edit of X x every fixture that has a fragment (cut after the "
-        "first mdat, with its moov), then generated fragments. Non-trivial = distinct (input, X, edit) that applied. "
+        "first mdat, with its moov), then generated fragments; the same grid for boxes Z that nobody depends upon but whose "
+        "length the trun / saio offsets refer to (tfdt.version 0<->1, a string growing in front of the moof, a box built "
+        "from scratch or a parsed box inserted into the traf / moof); and a first-touch grid: every box of the first "
+        "fragment is the first thing read from a freshly loaded lazy tree (no iv_size option when the file has a tenc) and "
+        "must show the fields of the eager tree. Non-trivial = distinct (input, X, edit) that applied. "
         "This is differential eager-vs-lazy (the clause the property states); the Lean model has no loading order."))
     try:
         pairs = listener_pairs()
@@ -1120,7 +1204,7 @@ def ch_lazyedit(ctx):
         rng = ctx.rng("lazyedit")
         # generated fragments (with mdat, sidx/styp in front, tfhd defaults, senc/saiz/saio)
         gen = []
-        for i in range(ctx.scale(60, 1500)):
+        for i in range(ctx.scale(60, 800)):
             forest, c = G.gen_forest(rng, False)
             if any(t[0] == "N" and t[1] == G.cc("moof") for t in forest):
                 gen.append((forest, c))
@@ -1130,11 +1214,16 @@ def ch_lazyedit(ctx):
                 inputs.append(("generated", bytes.fromhex(o), c[0]))
         hr = ctx.rng("lazyedit-history")
         for name, data, iv in inputs:
-            for x in xs:
-                for edit in X_EDITS.get(x, []):
-                    if len(ch.oracle_failures) >= 20:
+            if name != "generated":
+                first_touch(ch, name, data)
+            for x, edit in [(x, e) for x in xs for e in X_EDITS.get(x, [])] + \
+                           [(z, e) for z in sorted(Z_EDITS) for e in Z_EDITS[z]]:
+                if True:
+                    if len(ch.oracle_failures) >= int(os.environ.get("C04_CAP", "20")):
                         break
-                    for opened in (True, False):
+                    # "nothing loaded" is the region of the open finding O-lazy-dependant-in-unloaded-container for
+                    # every edit outside the traf; it is exercised through the ledger witness only
+                    for opened in ((True, False) if x in INSIDE_TRAF and name != "generated" else (True,)):
                         HIST.begin([] if name != "generated" else I.gen_calls(hr, 3))
                         applied, fails = lazyedit_case(data, iv, x, edit, opened)
                         if applied:
@@ -1462,6 +1551,10 @@ def _oracle_case(f):
             data = full[:mdat.end]
         else:
             data = bytes.fromhex(f["data"])
+        if f["x"] == "first-touch":
+            tmp = Channel("replay")
+            first_touch(tmp, f["fixture_prefix"], data)
+            return [x["failures"][0] for x in tmp.oracle_failures if x["edit"][1] == f["edit"][1]]
         return lazyedit_case(data, f.get("iv"), f["x"], tuple(f["edit"]), f.get("opened", True))[1]
     iv = f.get("iv")
     if kind == "tfdt-switch":
@@ -1600,6 +1693,6 @@ def matches_finding(finding, failure_):
     if not (bool(region) and region in (failure_.get("regions") or []) and
             failure_.get("kind") == finding.get("oracle_clause")):
         return False
-    if finding.get("x") is not None:      # lazy-edit findings are per edited box type
-        return failure_.get("x") == finding["x"] and failure_.get("opened") is False
+    if finding.get("oracle_clause") == "lazy-edit":     # only the cases in which nothing had been loaded
+        return failure_.get("opened") is False
     return True
